@@ -199,7 +199,8 @@ class Enum(BaseType, IntEnum, metaclass=EnumMetaType):
         return not self.__eq__(value)
 
     def __hash__(self) -> int:
-        return hash((self.__class__, self.name, self.value))
+        # Members are equal by value (also aliases of one value), so the name is not part of the hash
+        return hash((self.__class__, self.value))
 
     @classmethod
     def _missing_(cls, value: int) -> Self:
